@@ -628,7 +628,7 @@ def run(ctx):
 
     # ---- R8 teardown order: cancelling a Deferred handle runs its chain synchronously; whatever that chain can start
     # must be cancelled afterwards
-    r = ctx.rule("R8", "stop() cancels a Deferred handle before the handles its chain can (re)arm", 2, "C")
+    r = ctx.rule("R8", "stop() cancels a Deferred handle before the handles its chain can (re)arm", 1, "C")
     cstop = ctx.cfg(stop)
 
     def _live_in_stop(func, astnode):
